@@ -363,22 +363,23 @@ def _patch_any(th: PrimTheory):
     th.call_builtin = call_builtin
 
 
-def unit(name, props, cls):
+def unit(name, props, cls, mod="asyncio.locks", short="locks", theory=None, mutable=()):
     def deco(fn):
-        def wrapped(ip: Interp, th: PrimTheory):
-            std = StdRepo(stdlib_file("asyncio.locks"), "locks")
+        def wrapped(ip: Interp, th):
+            std = StdRepo(stdlib_file(mod), short)
             ip.repo = std
-            ip.extra_functions = {f"asyncio.locks.{cls}.{m}": fi.src_hash for m, fi in std.classes[cls].methods.items() if not m.startswith("__") or m == "__init__"}
-            ip.extra_functions["asyncio/locks.py"] = std.file_hash
+            ip.extra_functions = {f"{mod}.{cls}.{m}": fi.src_hash for m, fi in std.classes[cls].methods.items() if not m.startswith("__") or m == "__init__"}
+            ip.extra_functions[mod.replace(".", "/") + ".py"] = std.file_hash
             saved = Interp.MUTABLE_EXTRA
-            Interp.MUTABLE_EXTRA = saved + (WaitersV,)
-            _patch_any(th)
+            Interp.MUTABLE_EXTRA = saved + (WaitersV,) + tuple(mutable)
+            if hasattr(th, "finish_quant"):
+                _patch_any(th)
             try:
                 return fn(ip, th, std)
             finally:
                 Interp.MUTABLE_EXTRA = saved
 
-        UNITS.append(Unit(name, wrapped, props, [], theory_factory=lambda: PrimTheory(cls), trusted=TRUSTED_ASYNCIO))
+        UNITS.append(Unit(name, wrapped, props, [], theory_factory=(lambda: PrimTheory(cls)) if theory is None else theory, trusted=TRUSTED_ASYNCIO))
         return fn
 
     return deco
@@ -622,7 +623,7 @@ def u_lock(ip: Interp, th: PrimTheory, std: StdRepo):
 # ======================================================================================================
 # asyncio.Event  (contract consumed by gather_and_close / until_closed / _check_start: `_closed`)
 # ======================================================================================================
-EVENT_PROPS = ("C08", "C09")
+EVENT_PROPS = ("C08", "C09", "C20")
 
 
 @unit("asyncio.locks.Event", EVENT_PROPS, "Event")
@@ -723,3 +724,368 @@ def u_event(ip: Interp, th: PrimTheory, std: StdRepo):
             if isinstance(n, ast.Attribute) and n.attr == "set_result":
                 writers.append(m)
     ip.require(th.initial(), "callgraph:only-Event.set-releases-waiters", z3.BoolVal(sorted(set(writers)) == ["set"]), P)
+
+
+# ======================================================================================================
+# asyncio.Queue  (contract consumed by queue_context.Queue, property C20) - from the interpreter's asyncio/queues.py
+#   abstract state of the C20 unit: items = len(_queue), unfinished = _unfinished_tasks;   invariant QJ: the `_finished`
+#   event is set  <=>  unfinished == 0   (so join(), which waits for that event, returns exactly when unfinished reached 0)
+# ======================================================================================================
+class ItemsV(V):
+    """`_queue`: a deque of items as a window [lo, hi) over an array"""
+
+    def __init__(self, lo, hi, arr):
+        self.lo, self.hi, self.arr = lo, hi, arr
+
+    def truthy_term(self):
+        return self.hi - self.lo != 0
+
+    def terms(self):
+        return [self.lo, self.hi, self.arr]
+
+    def havoc(self, prefix):
+        return ItemsV(fresh(prefix + "_lo", I), fresh(prefix + "_hi", I), fresh(prefix + "_arr", z3.ArraySort(I, Ref)))
+
+
+class QueueImplTheory(PrimTheory):
+    def __init__(self):
+        super().__init__("Queue")
+
+    def initial(self) -> St:
+        from pyvc.sym import EventV
+
+        st = St()
+        st.me = fresh("me", Ref)
+        q = ItemsV(fresh("q_lo", I), fresh("q_hi", I), fresh("q_arr", z3.ArraySort(I, Ref)))
+        st.sh = {"_queue": q, "_unfinished_tasks": IntV(fresh("unfinished", I)), "_finished": EventV(fresh("finished", B)), "_maxsize": IntV(fresh("maxsize", I)),
+                 "_getters": WaitersV(z3.BoolVal(False), SetV.symbolic("getters", RefL())), "_putters": WaitersV(z3.BoolVal(False), SetV.symbolic("putters", RefL())),
+                 "$fstate": ArrV(fresh("fstate", A_RI))}
+        self.assume_facts(st)
+        for _n, f in self.QJ(st.sh):
+            st.assume(f)
+        return st
+
+    def assume_facts(self, st: St) -> None:
+        for k in ("_getters", "_putters"):
+            for f in st.sh[k].s.qfacts():
+                st.assume(f)
+        st.assume(st.sh["_queue"].hi >= st.sh["_queue"].lo)
+
+    @staticmethod
+    def QJ(sh):
+        return [("QJ.finished-event-is-set-iff-no-unfinished-item", sh["_finished"].is_set == (sh["_unfinished_tasks"].t == 0)),
+                ("QJ.counters-non-negative", z3.And(sh["_unfinished_tasks"].t >= 0, sh["_queue"].hi >= sh["_queue"].lo))]
+
+    def check_QJ(self, st, label, props):
+        for n, f in self.QJ(st.sh):
+            self.ip.require(st, f"inv:{n}@{label}", f, props)
+
+    @staticmethod
+    def items(sh):
+        return sh["_queue"].hi - sh["_queue"].lo
+
+    def coerce_field(self, st, attr, old, new):
+        return Theory.coerce_field(self, st, attr, old, new)
+
+    def call_builtin(self, st, fr, f, pos, kws, rest_kw, node):
+        ip = self.ip
+        if f.recv is None and f.name == "len":
+            v = ip.deref(st, pos[0])
+            if isinstance(v, ItemsV):
+                return [(st, IntV(v.hi - v.lo))]
+            if isinstance(v, WaitersV):
+                return [(st, IntV(v.s.card))]
+        if f.recv is None and f.name == "<loop>.create_future":
+            fut = fresh("fut", Ref)
+            st.assume(z3.And(fut != NONE, z3.Select(st.sh["$fstate"].t, fut) == PENDING, z3.Not(st.sh["_getters"].s.has(fut)), z3.Not(st.sh["_putters"].s.has(fut))))
+            st.trace.append(("create_future", fut))
+            return [(st, RefV(fut))]
+        if f.recv is None and f.name == "collections.deque" and not pos:
+            return [(st, _NewDeque())]
+        if f.recv is None and f.name == "locks.Event":
+            from pyvc.sym import EventV
+
+            return [(st, EventV(z3.BoolVal(False)))]  # Event.__init__ (unit asyncio.locks.Event): unset
+        if f.recv is None and f.name in ("QueueFull", "QueueEmpty"):
+            return [(st, ExcV(f.name, []))]
+        return super().call_builtin(st, fr, f, pos, kws, rest_kw, node)
+
+    def coerce_field(self, st, attr, old, new):
+        if isinstance(new, _NewDeque):
+            if isinstance(old, ItemsV):
+                z = fresh("q0", I)
+                return ItemsV(z, z, old.arr)
+            if isinstance(old, WaitersV):
+                return WaitersV(z3.BoolVal(False), SetV.empty(RefL()))
+        return Theory.coerce_field(self, st, attr, old, new)
+
+    def call_method(self, st, fr, recv, name, pos, kws, node):
+        from pyvc.sym import EventV
+
+        ip = self.ip
+        val = ip.deref(st, recv)
+        if isinstance(val, ItemsV) and isinstance(recv, PlaceV):
+            if name == "append":
+                item = ip.deref(st, pos[0])
+                t = item.t if isinstance(item, RefV) else fresh("item", Ref)
+                ip.place_set(st, recv, ItemsV(val.lo, val.hi + 1, z3.Store(val.arr, val.hi, t)))
+                st.trace.append(("enqueue", t))
+                return [(st, NoneV())]
+            if name == "popleft":
+                out = []
+                for s, b in ip.branch(st, val.hi - val.lo > 0, "popleft"):
+                    if b:
+                        ip.place_set(s, recv, ItemsV(val.lo + 1, val.hi, val.arr))
+                        got = z3.Select(val.arr, val.lo)
+                        s.trace.append(("dequeue", got))
+                        out.append((s, RefV(got)))
+                    else:
+                        out.append((s, Exit(Exit.RAISE, ExcV("IndexError", []))))
+                return out
+        if isinstance(val, WaitersV) and isinstance(recv, PlaceV):
+            fut = ip.deref(st, pos[0]) if pos else None
+            if name == "append" and isinstance(fut, RefV):
+                ip.place_set(st, recv, WaitersV(val.isnone, val.s.add(fut.t)))
+                return [(st, NoneV())]
+            if name == "remove" and isinstance(fut, RefV):
+                out = []
+                for s, b in ip.branch(st, val.has(fut.t), "remove"):
+                    if b:
+                        ip.place_set(s, recv, WaitersV(val.isnone, val.s.discard(fut.t)))
+                        out.append((s, NoneV()))
+                    else:
+                        out.append((s, Exit(Exit.RAISE, ExcV("ValueError", []))))
+                return out
+            if name == "popleft":
+                out = []
+                for s, b in ip.branch(st, val.s.card > 0, "wpop"):
+                    if b:
+                        w = fresh("waiter", Ref)
+                        s.assume(val.s.has(w))
+                        ip.place_set(s, recv, WaitersV(val.isnone, val.s.discard(w)))
+                        out.append((s, RefV(w)))
+                    else:
+                        out.append((s, Exit(Exit.RAISE, ExcV("IndexError", []))))
+                return out
+        if isinstance(val, EventV) and isinstance(recv, PlaceV):
+            # contract of asyncio.Event (verified in unit asyncio.locks.Event)
+            if name == "set":
+                ip.place_set(st, recv, EventV(z3.BoolVal(True)))
+                st.trace.append(("finished.set",))
+                return [(st, NoneV())]
+            if name == "clear":
+                ip.place_set(st, recv, EventV(z3.BoolVal(False)))
+                return [(st, NoneV())]
+            if name == "wait":
+                return [(st, CoroV("builtin", "event_wait", {"place": recv}))]
+        if isinstance(val, RefV):
+            fs = st.sh["$fstate"].t
+            if name == "cancelled":
+                return [(st, BoolV(z3.Select(fs, val.t) == CANCELLED))]
+            if name == "done":
+                return [(st, BoolV(z3.Select(fs, val.t) != PENDING))]
+            if name == "set_result":
+                ip.require(st, "Future.set_result:only-on-a-pending-future", z3.Select(fs, val.t) == PENDING, ("C20",))
+                st.sh["$fstate"] = ArrV(z3.Store(fs, val.t, GRANTED))
+                return [(st, NoneV())]
+            if name == "cancel":
+                st.sh["$fstate"] = ArrV(z3.If(z3.Select(fs, val.t) == PENDING, z3.Store(fs, val.t, CANCELLED), fs))
+                return [(st, BoolV(z3.Select(fs, val.t) == PENDING))]
+        raise Unsupported(f"method .{name}() on {type(val).__name__}")
+
+    def value_attr(self, st, fr, v, attr):
+        return super().value_attr(st, fr, v, attr)
+
+    def do_await(self, st, fr, v, node):
+        from pyvc.sym import EventV
+        from pyvc.theory import havoc_like
+
+        ip = self.ip
+        P = ("C20",)
+        is_event = isinstance(v, CoroV) and v.kind == "builtin" and v.target == "event_wait"
+        if is_event:
+            ev: EventV = ip.place_get(st, v.args["place"])
+            out = []
+            for s, isset in ip.branch(st, ev.is_set, "event-set"):
+                if isset:
+                    out.append((s, BoolV(True)))  # Event.wait on a set event returns at once (unit asyncio.locks.Event)
+                else:
+                    out.extend(self._suspend(s, "Event.wait", P, woke=None))
+            return out
+        if isinstance(v, RefV):
+            return self._suspend(st, "future", P, woke=v.t)
+        raise Unsupported("await of " + type(v).__name__)
+
+    def _suspend(self, st, what, P, woke):
+        from pyvc.theory import havoc_like
+
+        ip = self.ip
+        self.check_QJ(st, f"suspension[{what}]", P)
+        st.aux.setdefault("suspensions", []).append(dict(st.sh))
+        st.trace.append(("suspend", what))
+        old = z3.Select(st.sh["$fstate"].t, woke) if woke is not None else None
+        for k in list(st.sh):
+            if k != "_maxsize":
+                st.sh[k] = havoc_like(st.sh[k], "resumed_" + k.strip("$_"))
+        self.assume_facts(st)
+        for _n, f in self.QJ(st.sh):
+            st.assume(f)
+        out = []
+        ok = st.fork()
+        ok.tags.append("resumed:normally")
+        if woke is not None:
+            ok.assume(z3.Select(ok.sh["$fstate"].t, woke) == GRANTED)
+        out.append((ok, BoolV(True) if woke is None else NoneV()))
+        can = st.fork()
+        can.tags.append("resumed:cancelled")
+        if woke is not None:
+            can.assume(z3.Select(can.sh["$fstate"].t, woke) != PENDING)
+        e = ExcV("CancelledError", [])
+        e.origin = "delivered"
+        out.append((can, Exit(Exit.RAISE, e)))
+        for s, _v in out:
+            s.aux["resumed"] = dict(s.sh)
+        return [(s, v_) for s, v_ in out if ip.feasible(s)]
+
+
+class _NewDeque(V):
+    pass
+
+
+@unit("asyncio.queues.Queue", ("C20",), "Queue", mod="asyncio.queues", short="queues", theory=lambda: QueueImplTheory(), mutable=(ItemsV,))
+def u_queue_impl(ip: Interp, th: QueueImplTheory, std: StdRepo):
+    from pyvc.sym import EventV
+
+    P = ("C20",)
+    Q = "queues.Queue."
+    SELF = SelfV("Queue")
+    std.exc.update({"QueueFull": "Exception", "QueueEmpty": "Exception"})
+
+    def run(st, name, args):
+        fi = std.get(Q + name)
+        fr0 = Frame(None, fi.module, SELF, 0, qual="@unit")
+        if fi.is_async:
+            return ip.run_repo(st, fr0, fi, SELF, args, awaited=True)
+        return ip.exec_function(st, fi, SELF, args)
+
+    items, unf = QueueImplTheory.items, (lambda sh: sh["_unfinished_tasks"].t)
+    th.after_loop_havoc = lambda s, st0, mod_shared: th.assume_facts(s)  # trusted container facts for the havocked deques
+
+    def same_counts(s, sh0):
+        return z3.And(items(s.sh) == items(sh0), unf(s.sh) == unf(sh0), s.sh["_finished"].is_set == sh0["_finished"].is_set)
+
+    # _wakeup_next(waiters): pops waiters up to the first pending one and wakes it; the counters are not touched
+    def inv_wakeup(c):
+        s, s0 = c.st, c.st0
+        return [("counters-untouched", z3.And(items(s.sh) == items(s0.sh), unf(s.sh) == unf(s0.sh), s.sh["_finished"].is_set == s0.sh["_finished"].is_set, s.sh["_queue"].lo == s0.sh["_queue"].lo, s.sh["_queue"].hi == s0.sh["_queue"].hi, s.sh["_queue"].arr == s0.sh["_queue"].arr))]
+
+    for which in ("_getters", "_putters"):
+        ip.loopspecs[(Q + "_wakeup_next", 1)] = LoopSpec(inv_wakeup, P, name="pop-done-waiters",
+                                                        variant=lambda c, which=which: c.st.sh[which].s.card)
+        st = th.initial()
+        sh0 = dict(st.sh)
+        for s, v in run(st, "_wakeup_next", {"waiters": PlaceV(("sh", which))}):
+            ip.require(s, f"_wakeup_next[{which}]:noraise;counters-and-queue-content-untouched", z3.And(z3.BoolVal(not isinstance(v, Exit)), same_counts(s, sh0), s.sh["_queue"].arr == sh0["_queue"].arr, s.sh["_queue"].lo == sh0["_queue"].lo), P)
+
+    def c_wakeup(ip_, s, fr, selfv, args):
+        """contract of _wakeup_next (proved above): only the waiter deque and future states change"""
+        from pyvc.theory import havoc_like
+
+        for k in ("_getters", "_putters", "$fstate"):
+            s.sh[k] = havoc_like(s.sh[k], "woken_" + k.strip("$_"))
+        th.assume_facts(s)
+        return [(s, NoneV())]
+
+    ip.contracts[Q + "_wakeup_next"] = c_wakeup
+    # __init__
+    st = th.initial()
+    for k in ("_unfinished_tasks", "_finished", "_queue", "_getters", "_putters", "_maxsize"):
+        from pyvc.theory import havoc_like
+
+        st.sh[k] = havoc_like(st.sh[k], "uninit_" + k.strip("_"))
+    ms = IntV(fresh("a_maxsize", I))
+    for s, v in run(st, "__init__", {"maxsize": ms}):
+        ip.require(s, "__init__:empty-queue,nothing-unfinished,join-would-return-at-once", z3.And(z3.BoolVal(not isinstance(v, Exit)), items(s.sh) == 0, unf(s.sh) == 0, s.sh["_finished"].is_set, s.sh["_maxsize"].t == ms.t), P)
+        th.check_QJ(s, "__init__", P)
+    # put_nowait
+    st = th.initial()
+    sh0 = dict(st.sh)
+    item = RefV(fresh("a_item", Ref))
+    full0 = z3.And(sh0["_maxsize"].t > 0, items(sh0) >= sh0["_maxsize"].t)
+    for s, v in run(st, "put_nowait", {"item": item}):
+        if isinstance(v, Exit):
+            ip.require(s, "put_nowait:QueueFull-exactly-when-full(then-nothing-changes)", z3.And(z3.BoolVal(v.val.cls == "QueueFull"), full0, same_counts(s, sh0)), P)
+            continue
+        q1 = s.sh["_queue"]
+        ip.require(s, "put_nowait:adds-the-item-at-the-tail;one-more-item,one-more-unfinished", z3.And(z3.Not(full0), items(s.sh) == items(sh0) + 1, unf(s.sh) == unf(sh0) + 1, q1.lo == sh0["_queue"].lo, z3.Select(q1.arr, q1.hi - 1) == item.t), P)
+        th.check_QJ(s, "put_nowait", P)
+    # get_nowait
+    st = th.initial()
+    sh0 = dict(st.sh)
+    for s, v in run(st, "get_nowait", {}):
+        if isinstance(v, Exit):
+            ip.require(s, "get_nowait:QueueEmpty-exactly-when-empty(then-nothing-changes)", z3.And(z3.BoolVal(v.val.cls == "QueueEmpty"), items(sh0) == 0, same_counts(s, sh0)), P)
+            continue
+        ip.require(s, "get_nowait:takes-exactly-the-head-item;unfinished-untouched", z3.And(items(sh0) > 0, items(s.sh) == items(sh0) - 1, unf(s.sh) == unf(sh0), v.t == z3.Select(sh0["_queue"].arr, sh0["_queue"].lo) if isinstance(v, RefV) else z3.BoolVal(False)), P)
+        th.check_QJ(s, "get_nowait", P)
+    # task_done
+    st = th.initial()
+    sh0 = dict(st.sh)
+    for s, v in run(st, "task_done", {}):
+        if isinstance(v, Exit):
+            ip.require(s, "task_done:ValueError-exactly-when-nothing-is-unfinished(then-nothing-changes)", z3.And(z3.BoolVal(v.val.cls == "ValueError"), unf(sh0) <= 0, same_counts(s, sh0)), P)
+            continue
+        ip.require(s, "task_done:one-less-unfinished;items-untouched", z3.And(unf(sh0) > 0, unf(s.sh) == unf(sh0) - 1, items(s.sh) == items(sh0)), P)
+        th.check_QJ(s, "task_done", P)
+    # join
+    st = th.initial()
+    sh0 = dict(st.sh)
+    for s, v in run(st, "join", {}):
+        sus = [e for e in s.trace if e[0] == "suspend"]
+        if not sus:
+            ip.require(s, "join:returns-at-once-exactly-when-nothing-is-unfinished", z3.And(z3.BoolVal(not isinstance(v, Exit)), unf(sh0) == 0, same_counts(s, sh0)), P)
+            continue
+        ip.require(s, "join:waits-(once,for-the-finished-event)-exactly-when-something-is-unfinished", z3.And(unf(sh0) > 0, z3.BoolVal(len(sus) == 1 and sus[0][1] == "Event.wait")), P)
+        r = s.aux["resumed"]
+        ip.require(s, "join:after-the-wait-it-changes-nothing-and-returns(or-re-raises-the-cancellation)", z3.And(same_counts(s, r), z3.BoolVal((not isinstance(v, Exit)) == ("resumed:normally" in s.tags))), P)
+    # get: takes exactly one item, or raises without taking one
+    def inv_get(c):
+        taken = len([e for e in c.st.trace if e[0] == "dequeue"])
+        return [("nothing-taken-while-waiting", z3.BoolVal(taken == 0))] + QueueImplTheory.QJ(c.st.sh)
+
+    ip.loopspecs[(Q + "get", 1)] = LoopSpec(inv_get, P, name="wait-for-an-item")
+
+    def after_loop_havoc(s, st0, mod_shared):
+        th.assume_facts(s)
+
+    th.after_loop_havoc = after_loop_havoc
+    st = th.initial()
+    for s, v in run(st, "get", {}):
+        taken = [e for e in s.trace if e[0] == "dequeue"]
+        if isinstance(v, Exit):
+            ip.require(s, f"get:raises-only-a-delivered-cancellation,without-taking-an-item:{v.val.cls}", z3.BoolVal(v.val.cls == "CancelledError" and not taken), P)
+            r = s.aux.get("resumed")
+            if r is not None:
+                ip.require(s, "get:cancelled:items-and-unfinished-untouched-since-resumption", z3.And(items(s.sh) == items(r), unf(s.sh) == unf(r)), P)
+        else:
+            ip.require(s, "get:returns-exactly-one-item-taken-from-the-queue", z3.And(z3.BoolVal(len(taken) == 1), v.t == taken[0][1]) if len(taken) == 1 and isinstance(v, RefV) else z3.BoolVal(False), P)
+        th.check_QJ(s, "get-exit", P)
+    # put: adds exactly one item (through put_nowait) or raises without adding one
+    def inv_put(c):
+        added = len([e for e in c.st.trace if e[0] == "enqueue"])
+        return [("nothing-added-while-waiting", z3.BoolVal(added == 0))] + QueueImplTheory.QJ(c.st.sh)
+
+    ip.loopspecs[(Q + "put", 1)] = LoopSpec(inv_put, P, name="wait-for-room")
+    st = th.initial()
+    item = RefV(fresh("a_item", Ref))
+    for s, v in run(st, "put", {"item": item}):
+        added = [e for e in s.trace if e[0] == "enqueue"]
+        if isinstance(v, Exit):
+            ip.require(s, f"put:raises-only-a-delivered-cancellation,without-adding-an-item:{v.val.cls}", z3.BoolVal(v.val.cls == "CancelledError" and not added), P)
+        else:
+            ip.require(s, "put:adds-exactly-the-given-item-once", z3.And(z3.BoolVal(len(added) == 1), added[0][1] == item.t) if len(added) == 1 else z3.BoolVal(False), P)
+        th.check_QJ(s, "put-exit", P)
+    # who sets the finished event: only __init__ and task_done (when the count reaches zero)
+    setters = sorted({m for m, fi in std.classes["Queue"].methods.items() for n in ast.walk(fi.node)
+                      if isinstance(n, ast.Attribute) and n.attr == "set" and isinstance(n.value, ast.Attribute) and n.value.attr == "_finished"})
+    ip.require(th.initial(), "callgraph:only-__init__-and-task_done-set-the-finished-event", z3.BoolVal(setters == ["__init__", "task_done"]), P)
